@@ -10,6 +10,7 @@
 package main
 
 import (
+	"encoding/hex"
 	"fmt"
 	"os"
 	"path/filepath"
@@ -17,9 +18,21 @@ import (
 	"strconv"
 	"strings"
 	"unicode"
+
+	"google.golang.org/protobuf/types/descriptorpb"
 )
 
+// srcOpt is one option as written: NAME is `(pkg.ext)` or a built-in name; a value written as an
+// aggregate `{...}` or addressed through a sub-field (`(google.api.http).get = ...`) is message
+// valued: only its presence is compared.
+type srcOpt struct {
+	Name string
+	Val  string
+	Agg  bool
+}
+
 type srcField struct {
+	Opts []srcOpt
 	Name string
 	Num  int
 	Type string // scalar keyword or unresolved type reference
@@ -28,6 +41,7 @@ type srcField struct {
 }
 
 type srcMsg struct {
+	Opts    []srcOpt
 	Full    string
 	Signers []string
 	Fields  []srcField
@@ -38,16 +52,20 @@ type srcMsg struct {
 type srcEnumVal struct {
 	Name string
 	Num  int
+	Opts []srcOpt
 }
 type srcEnum struct {
+	Opts   []srcOpt
 	Full   string
 	Values []srcEnumVal
 }
 type srcMethod struct {
 	Name, In, Out string
 	CS, SS        bool
+	Opts          []srcOpt
 }
 type srcSvc struct {
+	Opts    []srcOpt
 	Full    string
 	MsgSvc  bool
 	Methods []srcMethod
@@ -149,30 +167,65 @@ func (p *parser) skipBalanced(open, close string) {
 // option statement: `option NAME = VALUE ;` where NAME may be `(ext.name)` possibly followed by
 // `.sub`, VALUE a constant or an aggregate `{ ... }`.  Returns name and value text.
 func (p *parser) option() (string, string) {
+	o := p.optionStmt()
+	return o.Name, o.Val
+}
+
+func (p *parser) optionStmt() srcOpt {
 	p.expect("option")
-	name := ""
+	o := p.optAssign()
+	p.expect(";")
+	return o
+}
+
+// optAssign parses `NAME = VALUE`.
+func (p *parser) optAssign() srcOpt {
+	o := srcOpt{}
 	if p.peek() == "(" {
 		p.next()
-		name = "(" + p.next() + ")"
+		o.Name = "(" + p.next() + ")"
 		p.expect(")")
 		for strings.HasPrefix(p.peek(), ".") {
-			name += p.next()
+			p.next() // a sub-field of a message-valued option
+			o.Agg = true
 		}
 	} else {
-		name = p.next()
+		o.Name = p.next()
 	}
 	p.expect("=")
-	val := ""
 	if p.peek() == "{" {
 		start := p.pos
 		p.skipBalanced("{", "}")
-		val = strings.Join(p.toks[start:p.pos], " ")
+		o.Val = strings.Join(p.toks[start:p.pos], " ")
+		o.Agg = true
 	} else {
-		val = p.next()
+		o.Val = p.next()
+		// adjacent string literals are concatenated
+		for isStr(o.Val) && isStr(p.peek()) {
+			t := p.next()
+			o.Val = `"` + unquote(o.Val) + unquote(t) + `"`
+		}
 	}
-	p.expect(";")
-	return name, val
+	return o
 }
+
+// bracketOpts parses `[ NAME = VALUE, ... ]` after a field or enum value.
+func (p *parser) bracketOpts() []srcOpt {
+	var out []srcOpt
+	p.expect("[")
+	for {
+		out = append(out, p.optAssign())
+		if p.peek() == "," {
+			p.next()
+			continue
+		}
+		break
+	}
+	p.expect("]")
+	return out
+}
+
+func isStr(t string) bool { return len(t) >= 2 && (t[0] == '"' || t[0] == '\'') }
 
 func unquote(s string) string {
 	if len(s) >= 2 && (s[0] == '"' || s[0] == '\'') {
@@ -192,9 +245,10 @@ func (p *parser) message(prefix string) *srcMsg {
 		case ";":
 			p.next()
 		case "option":
-			name, val := p.option()
-			if name == "(cosmos.msg.v1.signer)" {
-				m.Signers = append(m.Signers, unquote(val))
+			o := p.optionStmt()
+			m.Opts = append(m.Opts, o)
+			if o.Name == "(cosmos.msg.v1.signer)" {
+				m.Signers = append(m.Signers, unquote(o.Val))
 			}
 		case "message":
 			m.Nested = append(m.Nested, p.message(m.Full+"."))
@@ -232,7 +286,7 @@ func (p *parser) message(prefix string) *srcMsg {
 			}
 			f.Num = num
 			if p.peek() == "[" {
-				p.skipBalanced("[", "]")
+				f.Opts = p.bracketOpts()
 			}
 			p.expect(";")
 			m.Fields = append(m.Fields, f)
@@ -253,7 +307,7 @@ func (p *parser) enum(prefix string) *srcEnum {
 		case ";":
 			p.next()
 		case "option":
-			p.option()
+			e.Opts = append(e.Opts, p.optionStmt())
 		case "reserved":
 			for p.next() != ";" {
 			}
@@ -264,11 +318,12 @@ func (p *parser) enum(prefix string) *srcEnum {
 			if err != nil {
 				panic(fmt.Sprintf("%s: enum value %s: %v", p.file, name, err))
 			}
+			var os []srcOpt
 			if p.peek() == "[" {
-				p.skipBalanced("[", "]")
+				os = p.bracketOpts()
 			}
 			p.expect(";")
-			e.Values = append(e.Values, srcEnumVal{name, num})
+			e.Values = append(e.Values, srcEnumVal{name, num, os})
 		}
 	}
 	p.expect("}")
@@ -286,8 +341,9 @@ func (p *parser) service(prefix string) *srcSvc {
 		case ";":
 			p.next()
 		case "option":
-			name, val := p.option()
-			if name == "(cosmos.msg.v1.service)" && val == "true" {
+			o := p.optionStmt()
+			s.Opts = append(s.Opts, o)
+			if o.Name == "(cosmos.msg.v1.service)" && o.Val == "true" {
 				s.MsgSvc = true
 			}
 		case "rpc":
@@ -309,7 +365,18 @@ func (p *parser) service(prefix string) *srcSvc {
 			md.Out = p.next()
 			p.expect(")")
 			if p.peek() == "{" {
-				p.skipBalanced("{", "}")
+				p.next()
+				for p.peek() != "}" {
+					switch p.peek() {
+					case ";":
+						p.next()
+					case "option":
+						md.Opts = append(md.Opts, p.optionStmt())
+					default:
+						panic(p.file + ": unexpected token in rpc body: " + p.peek())
+					}
+				}
+				p.expect("}")
 				if p.peek() == ";" {
 					p.next()
 				}
@@ -418,6 +485,185 @@ func readSources(root string) []*srcFile {
 	return out
 }
 
+// ---- options: names as written in the .proto text -> (extension number, type) ----
+
+type extInfo struct {
+	Num  int32
+	Type int32 // descriptorpb.FieldDescriptorProto_Type
+}
+
+// optTable maps an options message (".google.protobuf.FieldOptions", ...) and an option name as
+// written (`(gogoproto.nullable)`, `deprecated`) to the field/extension number and type.  It is
+// read from the file descriptors both registries hold (gogo.proto, cosmos.proto, msg.proto,
+// amino.proto, annotations.proto, ..., and descriptor.proto for the built-in options), never
+// from a hand-written list.
+func optTable() map[string]map[string]extInfo {
+	t := map[string]map[string]extInfo{}
+	put := func(extendee, name string, e extInfo) {
+		if t[extendee] == nil {
+			t[extendee] = map[string]extInfo{}
+		}
+		if old, ok := t[extendee][name]; ok && old != e {
+			panic(fmt.Sprintf("option %s of %s is declared with two numbers/types: %v and %v", name, extendee, old, e))
+		}
+		t[extendee][name] = e
+	}
+	for _, all := range []map[string]*descriptorpb.FileDescriptorProto{gogoFDs(), pulsarFDs()} {
+		for _, fd := range all {
+			pkg := fd.GetPackage()
+			for _, x := range fd.Extension {
+				put(x.GetExtendee(), "("+pkg+"."+x.GetName()+")", extInfo{x.GetNumber(), int32(x.GetType())})
+			}
+			if fd.GetName() == "google/protobuf/descriptor.proto" {
+				for _, m := range fd.MessageType {
+					if strings.HasSuffix(m.GetName(), "Options") {
+						for _, f := range m.Field {
+							put(".google.protobuf."+m.GetName(), f.GetName(), extInfo{f.GetNumber(), int32(f.GetType())})
+						}
+					}
+				}
+			}
+		}
+	}
+	return t
+}
+
+// aggregateOpts lists, per kind of declaration, the option numbers whose value is a message
+// (compared by presence only).
+func aggregateOpts() [][2]string {
+	kinds := map[string]string{".google.protobuf.MessageOptions": "msg", ".google.protobuf.FieldOptions": "field",
+		".google.protobuf.EnumOptions": "enum", ".google.protobuf.EnumValueOptions": "enumval",
+		".google.protobuf.ServiceOptions": "svc", ".google.protobuf.MethodOptions": "method"}
+	var out [][2]string
+	for ext, m := range optTable() {
+		k, ok := kinds[ext]
+		if !ok {
+			continue
+		}
+		for _, e := range m {
+			if e.Type == 11 {
+				out = append(out, [2]string{k, strconv.Itoa(int(e.Num))})
+			}
+		}
+	}
+	sort.Slice(out, func(i, j int) bool {
+		if out[i][0] != out[j][0] {
+			return out[i][0] < out[j][0]
+		}
+		a, _ := strconv.Atoi(out[i][1])
+		b, _ := strconv.Atoi(out[j][1])
+		return a < b
+	})
+	return out
+}
+
+// unescape interprets the escapes of a .proto string literal body.
+func unescape(s string) string {
+	var b []byte
+	for i := 0; i < len(s); i++ {
+		c := s[i]
+		if c != '\\' || i+1 >= len(s) {
+			b = append(b, c)
+			continue
+		}
+		i++
+		switch s[i] {
+		case 'n':
+			b = append(b, '\n')
+		case 't':
+			b = append(b, '\t')
+		case 'r':
+			b = append(b, '\r')
+		case '\\', '"', '\'', '?':
+			b = append(b, s[i])
+		case 'x', 'X':
+			j := i + 1
+			for j < len(s) && j < i+3 && strings.ContainsRune("0123456789abcdefABCDEF", rune(s[j])) {
+				j++
+			}
+			n, err := strconv.ParseUint(s[i+1:j], 16, 8)
+			if err != nil {
+				panic("source extractor: bad \\x escape in " + s)
+			}
+			b = append(b, byte(n))
+			i = j - 1
+		default:
+			if s[i] >= '0' && s[i] <= '7' {
+				j := i
+				for j < len(s) && j < i+3 && s[j] >= '0' && s[j] <= '7' {
+					j++
+				}
+				n, _ := strconv.ParseUint(s[i:j], 8, 16)
+				b = append(b, byte(n))
+				i = j - 1
+			} else {
+				panic("source extractor: unsupported escape in string literal " + s)
+			}
+		}
+	}
+	return string(b)
+}
+
+var optTab map[string]map[string]extInfo
+
+// optRows renders the options of one declaration as ROpt rows, sorted by option number (stable),
+// in the wire form the descriptors carry them: bool -> varint 0/1, string -> bytes, integer ->
+// varint; message-valued options by presence only.
+func optRows(owner, extendee string, opts []srcOpt) []string {
+	if optTab == nil {
+		optTab = optTable()
+	}
+	type row struct {
+		num int32
+		txt string
+	}
+	var rows []row
+	for _, o := range opts {
+		e, ok := optTab[extendee][o.Name]
+		if !ok {
+			panic(fmt.Sprintf("source extractor: option %s of %s is not declared by any linked .proto file (owner %s)", o.Name, extendee, owner))
+		}
+		wt, hx := 2, ""
+		switch {
+		case o.Agg || e.Type == 11:
+			if e.Type != 11 {
+				panic(fmt.Sprintf("source extractor: aggregate value for scalar option %s (%s)", o.Name, owner))
+			}
+		case e.Type == 8:
+			wt = 0
+			switch o.Val {
+			case "true":
+				hx = "01"
+			case "false":
+				hx = "00"
+			default:
+				panic(fmt.Sprintf("source extractor: option %s (%s): %q is not a bool", o.Name, owner, o.Val))
+			}
+		case e.Type == 9 || e.Type == 12:
+			if len(o.Val) < 2 || (o.Val[0] != '"' && o.Val[0] != '\'') {
+				panic(fmt.Sprintf("source extractor: option %s (%s): %q is not a string literal", o.Name, owner, o.Val))
+			}
+			hx = hex.EncodeToString([]byte(unescape(unquote(o.Val))))
+		case e.Type == 3 || e.Type == 4 || e.Type == 5 || e.Type == 13:
+			n, err := strconv.ParseInt(o.Val, 0, 64)
+			if err != nil {
+				panic(fmt.Sprintf("source extractor: option %s (%s): %q is not an integer", o.Name, owner, o.Val))
+			}
+			wt = 0
+			hx = hex.EncodeToString(appendVarint(nil, uint64(n)))
+		default:
+			panic(fmt.Sprintf("source extractor: option %s (%s) has a type outside the supported subset (%d)", o.Name, owner, e.Type))
+		}
+		rows = append(rows, row{e.Num, fmt.Sprintf("ROpt %s %d %d %s", coqStr(owner), e.Num, wt, coqStr(hx))})
+	}
+	sort.SliceStable(rows, func(i, j int) bool { return rows[i].num < rows[j].num })
+	var out []string
+	for _, r := range rows {
+		out = append(out, r.txt)
+	}
+	return out
+}
+
 // sourceRows renders the srow table.
 func sourceRows(files []*srcFile) []string {
 	declared := map[string]bool{}
@@ -486,6 +732,7 @@ func sourceRows(files []*srcFile) []string {
 		for _, s := range m.Signers {
 			rows = append(rows, fmt.Sprintf("RSigner %s %s", q(m.Full), q(s)))
 		}
+		rows = append(rows, optRows("msg "+m.Full, ".google.protobuf.MessageOptions", m.Opts)...)
 		var entries []*srcMsg
 		for _, f := range m.Fields {
 			ty := f.Type
@@ -501,6 +748,7 @@ func sourceRows(files []*srcFile) []string {
 				ty = resolve(m.Full, ty)
 			}
 			rows = append(rows, fmt.Sprintf("RField %s %s %d %s %s", q(m.Full), q(f.Name), f.Num, q(ty), coqBool(rep)))
+			rows = append(rows, optRows("field "+m.Full+"."+f.Name, ".google.protobuf.FieldOptions", f.Opts)...)
 		}
 		// descriptor order of nested types: declared nested messages and map entries in order of
 		// appearance; the repository declares no nested messages, so entries follow directly
@@ -510,6 +758,8 @@ func sourceRows(files []*srcFile) []string {
 		for _, en := range entries {
 			// entry fields resolve in the scope of the parent message
 			rows = append(rows, fmt.Sprintf("RMsg %s %s", q(fn), q(en.Full)))
+			// protoc marks the synthesised entry message with the built-in option map_entry = true
+			rows = append(rows, optRows("msg "+en.Full, ".google.protobuf.MessageOptions", []srcOpt{{Name: "map_entry", Val: "true"}})...)
 			for _, f := range en.Fields {
 				rows = append(rows, fmt.Sprintf("RField %s %s %d %s false", q(en.Full), q(f.Name), f.Num, q(resolve(m.Full, f.Type))))
 			}
@@ -534,14 +784,18 @@ func sourceRows(files []*srcFile) []string {
 		enums = append(enums, f.Enums...)
 		for _, e := range enums {
 			rows = append(rows, fmt.Sprintf("REnum %s %s", q(f.Name), q(e.Full)))
+			rows = append(rows, optRows("enum "+e.Full, ".google.protobuf.EnumOptions", e.Opts)...)
 			for _, v := range e.Values {
 				rows = append(rows, fmt.Sprintf("REnumVal %s %s %s", q(e.Full), q(v.Name), coqZ(int64(v.Num))))
+				rows = append(rows, optRows("enumval "+e.Full+"."+v.Name, ".google.protobuf.EnumValueOptions", v.Opts)...)
 			}
 		}
 		for _, s := range f.Svcs {
 			rows = append(rows, fmt.Sprintf("RSvc %s %s %s", q(f.Name), q(s.Full), coqBool(s.MsgSvc)))
+			rows = append(rows, optRows("svc "+s.Full, ".google.protobuf.ServiceOptions", s.Opts)...)
 			for _, md := range s.Methods {
 				rows = append(rows, fmt.Sprintf("RMethod %s %s %s %s %s %s", q(s.Full), q(md.Name), q(resolve(s.Full, md.In)), q(resolve(s.Full, md.Out)), coqBool(md.CS), coqBool(md.SS)))
+				rows = append(rows, optRows("method "+s.Full+"."+md.Name, ".google.protobuf.MethodOptions", md.Opts)...)
 			}
 		}
 	}
